@@ -58,6 +58,8 @@ func genWorld(seed uint64, tier string, mode string) *Script {
 		o.Faults, o.Mgmt = false, false
 	case "pack":
 		o.PadAttrs, o.Burst = true, true
+	case "restarting":
+		return genRestarting(seed, tier)
 	}
 	sc := &Script{Family: "world", Mode: mode, Seed: seed}
 	sc.SchedSeed = g.u64() | 1
@@ -523,7 +525,15 @@ func worldOp(w *simWorld, actor int, op *Op) {
 			w.probe("withdraw")
 		}
 	case "eor":
-		w.peers[actor].write(buildEOR(famByName(op.Family)))
+		p := w.peers[actor]
+		if p.write(buildEOR(famByName(op.Family))) {
+			p.mu.Lock()
+			if p.eorSent != nil {
+				p.eorSent[famByName(op.Family)] = w.now()
+			}
+			p.mu.Unlock()
+			w.probe("eor_sent")
+		}
 	case "refresh":
 		if w.peers[actor].write(buildRouteRefresh(famByName(op.Family))) {
 			w.probe("route_refresh_sent")
@@ -758,6 +768,27 @@ func worldCheck(w *simWorld, phase int) {
 		for _, p := range est {
 			if !p.hasFamily(fam) {
 				continue
+			}
+			if w.sc.Global.GRRestarting {
+				// C12, restarting speaker: nothing is advertised to a peer before every GR peer has sent
+				// End-of-RIB or that peer's deferral timer fired
+				switch w.restartHold(p) {
+				case "held":
+					view, keys := p.snapshotView()
+					for _, k := range keys {
+						if k.Fam == fam {
+							w.violate("C12", "advertised-while-deferring", fmt.Sprintf("p%d(%s)", p.cfg.Idx, p.cfg.Kind),
+								fmt.Sprintf("%s (tag %x) was advertised although the restarting speaker is still waiting for End-of-RIB from its GR peers and the deferral timer (%d s from establishment at %.1fs) has not fired", k, view[k].Tag, p.cfg.GR.Deferral, p.upAt.Seconds()))
+							break
+						}
+					}
+					w.probe("restart_hold_checked")
+					continue
+				case "unknown":
+					w.probe("restart_hold_uncertain")
+					continue
+				}
+				w.probe("restart_released_checked")
 			}
 			var table map[string][]*ribPath
 			if p.cfg.Kind == "rsclient" {
@@ -1107,4 +1138,248 @@ func (w *simWorld) checkStored(rp *ribPath) {
 	if g.String() != ws.String() {
 		w.violate("C09", "stored-route-altered", fmt.Sprintf("%s from %s", rp.Prefix, srcKind(src)), fmt.Sprintf("Loc-RIB holds {%s}, the route was received as {%s}", g, ws))
 	}
+}
+
+// ---------------------------------------------------------------- restarting speaker (C12, last clause)
+
+// restartHold says whether the daemon, started as a restarting speaker, must still withhold its
+// advertisements from p: "held", "released" or "unknown" (within two seconds of a deadline).
+// Model of RFC 4724 4.1 as the statement words it: release for everybody once every configured GR
+// peer is established and has sent End-of-RIB for every family of its GR capability (sticky), and
+// for one peer when its deferral timer, started when its session was established, fires (sticky).
+func (w *simWorld) restartHold(p *simPeer) string {
+	now := w.now()
+	w.mu.Lock()
+	defer w.mu.Unlock()
+	if w.grReleasedAll > 0 {
+		if now > w.grReleasedAll+time.Second {
+			return "released"
+		}
+		return "unknown"
+	}
+	all := true
+	var last time.Duration
+	for _, q := range w.peers {
+		q.mu.Lock()
+		up := q.up
+		if q.upAt > last {
+			last = q.upAt
+		}
+		for _, fn := range q.cfg.GR.Families {
+			if t, ok := q.eorSent[famByName(fn)]; !ok {
+				all = false
+			} else if t > last {
+				last = t
+			}
+		}
+		q.mu.Unlock()
+		if !up {
+			all = false
+		}
+	}
+	if all {
+		// the instant the last End-of-RIB (or session) completed the condition
+		w.grReleasedAll = last + time.Millisecond
+		if now > w.grReleasedAll+time.Second {
+			return "released"
+		}
+		return "unknown"
+	}
+	if w.grReleasedPeer == nil {
+		w.grReleasedPeer = map[int]bool{}
+	}
+	if w.grReleasedPeer[p.cfg.Idx] {
+		return "released"
+	}
+	p.mu.Lock()
+	upAt := p.upAt
+	p.mu.Unlock()
+	d := time.Duration(p.cfg.GR.Deferral) * time.Second
+	switch {
+	case now > upAt+d+2*time.Second:
+		w.grReleasedPeer[p.cfg.Idx] = true
+		return "released"
+	case now < upAt+d-2*time.Second:
+		return "held"
+	}
+	return "unknown"
+}
+
+func genRestarting(seed uint64, tier string) *Script {
+	g := newGen(seed)
+	sc := &Script{Family: "world", Mode: "restarting", Seed: seed}
+	sc.SchedSeed = g.u64() | 1
+	sc.YieldN = pick(g, yieldChoices)
+	sc.SelShuffle = g.p(70)
+	sc.Global = GlobalCfg{AS: 65000, RouterID: "10.0.0.1", GRRestarting: true}
+	np := g.rng(2, 4)
+	v6 := g.p(40)
+	defer0 := pick(g, []int{20, 40})
+	for i := 0; i < np; i++ {
+		c := PeerCfg{Idx: i, Addr: peerAddr(i), RouterID: peerRID(i), Families: []string{"ipv4-unicast"}}
+		if v6 {
+			c.Families = append(c.Families, "ipv6-unicast")
+		}
+		switch g.n(3) {
+		case 0:
+			c.Kind, c.AS = "ibgp", 65000
+		default:
+			c.Kind, c.AS = "ebgp", uint32(65001+i)
+		}
+		c.GR = GRCfg{Enabled: true, RestartTime: 120, Families: append([]string(nil), c.Families...), Deferral: defer0}
+		if v6 && g.p(30) {
+			c.GR.Families = []string{"ipv4-unicast"} // the peer preserves forwarding state for one family only
+		}
+		sc.Peers = append(sc.Peers, c)
+	}
+	pool := []string{"10.1.0.0/24", "10.1.1.0/24", "10.1.2.0/24", "10.1.3.0/24"}
+	pool6 := []string{"2001:db8:1::/48", "2001:db8:2::/48"}
+	serial := 0
+	mkAnn := func(c *PeerCfg) Op {
+		serial++
+		a := &AttrSpec{Origin: g.n(3), MED: -1, LocalPref: -1, NextHop: c.Addr}
+		var path []uint32
+		if !isIBGPKind(c.Kind) {
+			path = append(path, c.AS)
+		} else {
+			a.LocalPref = 100
+		}
+		for k := g.n(3); k > 0; k-- {
+			path = append(path, pick(g, []uint32{65010, 65020, 65030}))
+		}
+		if len(path) > 0 {
+			a.ASPath = []asSeg{{2, path}}
+		}
+		fam, pfx := "ipv4-unicast", pick(g, pool)
+		if v6 && g.p(30) {
+			fam, pfx = "ipv6-unicast", pick(g, pool6)
+			a.NextHop = fmt.Sprintf("2001:db8::%d", c.Idx+2)
+		}
+		return Op{Kind: "ann", Actor: c.Idx, Family: fam, Prefix: pfx, Attrs: a, Tag: mkTag(c.Idx, serial), Delay: g.n(3) * 200}
+	}
+	eors := func(c *PeerCfg, delay int) []Op {
+		var l []Op
+		for _, f := range c.GR.Families {
+			l = append(l, Op{Kind: "eor", Actor: c.Idx, Family: f, Delay: delay})
+			delay = 0
+		}
+		return l
+	}
+	late := -1
+	if np > 2 && g.p(40) {
+		late = g.n(np)
+	}
+	sentEOR := map[int]bool{}
+	// phase 0: sessions come up, routes arrive, some peers finish with End-of-RIB
+	var p0 Phase
+	for i := range sc.Peers {
+		c := &sc.Peers[i]
+		if i == late {
+			continue
+		}
+		p0.Ops = append(p0.Ops, Op{Kind: "up", Actor: i})
+		for k := g.rng(1, 4); k > 0; k-- {
+			p0.Ops = append(p0.Ops, mkAnn(c))
+		}
+		if g.p(50) {
+			p0.Ops = append(p0.Ops, eors(c, 300)...)
+			sentEOR[i] = true
+		}
+	}
+	p0.Settle, p0.Check = pick(g, []int{3, 6}), true
+	sc.Phases = append(sc.Phases, p0)
+	// phase 1: the rest finishes, or nothing happens and the deferral timers fire, or only part of it
+	var p1 Phase
+	switch g.n(3) {
+	case 0: // everybody finishes
+		for i := range sc.Peers {
+			c := &sc.Peers[i]
+			if i == late {
+				p1.Ops = append(p1.Ops, Op{Kind: "up", Actor: i})
+				p1.Ops = append(p1.Ops, mkAnn(c))
+			}
+			if !sentEOR[i] {
+				p1.Ops = append(p1.Ops, eors(c, 500)...)
+				sentEOR[i] = true
+			}
+		}
+		p1.Settle = 6
+	case 1: // silence: deferral
+		for i := range sc.Peers {
+			if g.p(40) && i != late {
+				p1.Ops = append(p1.Ops, mkAnn(&sc.Peers[i]))
+			}
+		}
+		p1.Settle = defer0 + 6
+	default: // part of it
+		for i := range sc.Peers {
+			c := &sc.Peers[i]
+			if i != late && !sentEOR[i] && g.p(50) {
+				p1.Ops = append(p1.Ops, eors(c, 200)...)
+				sentEOR[i] = true
+			}
+		}
+		if late >= 0 && g.p(50) {
+			p1.Ops = append(p1.Ops, Op{Kind: "up", Actor: late}, mkAnn(&sc.Peers[late]))
+			late = -2
+		}
+		p1.Settle = pick(g, []int{4, defer0 + 6})
+	}
+	// while (possibly) still held: things that must not make the speaker talk early
+	for i := range sc.Peers {
+		c := &sc.Peers[i]
+		if i == late || late == -2 && g.p(50) {
+			continue
+		}
+		switch g.n(8) {
+		case 0: // a graceful loss and re-establishment of a peer (it re-announces nothing and finishes again)
+			p1.Ops = append(p1.Ops, Op{Kind: "down", Actor: i, Arg: "reset", Delay: 800}, Op{Kind: "up", Actor: i, Delay: 1200})
+			// it finishes with End-of-RIB again (otherwise the routes of its previous session are
+			// retained as stale for the restart time, which this family's table model leaves to `gr`)
+			p1.Ops = append(p1.Ops, eors(c, 300)...)
+			sentEOR[i] = true
+			if p1.Settle < 8 {
+				p1.Settle = 8
+			}
+		case 1: // the peer asks for the table
+			p1.Ops = append(p1.Ops, Op{Kind: "refresh", Actor: i, Family: "ipv4-unicast", Delay: 900})
+		case 2: // the operator asks for a re-advertisement
+			p1.Ops = append(p1.Ops, Op{Kind: "softout", Actor: -1, Peer: i, Delay: 900})
+		}
+	}
+	p1.Check = true
+	sc.Phases = append(sc.Phases, p1)
+	// phase 2: whatever is left; afterwards everybody must have been released
+	var p2 Phase
+	for i := range sc.Peers {
+		c := &sc.Peers[i]
+		if i == late {
+			p2.Ops = append(p2.Ops, Op{Kind: "up", Actor: i}, mkAnn(c))
+		}
+		if g.p(60) {
+			p2.Ops = append(p2.Ops, mkAnn(c))
+		}
+		if g.p(30) {
+			p2.Ops = append(p2.Ops, Op{Kind: "wd", Actor: i, Family: "ipv4-unicast", Prefix: pick(g, pool)})
+		}
+	}
+	p2.Settle, p2.Check = defer0+8, true
+	sc.Phases = append(sc.Phases, p2)
+	// phase 3: ordinary operation after the restart: churn and a flap
+	var p3 Phase
+	for i := range sc.Peers {
+		c := &sc.Peers[i]
+		for k := g.n(3); k > 0; k-- {
+			p3.Ops = append(p3.Ops, mkAnn(c))
+		}
+		if g.p(25) {
+			// a Cease NOTIFICATION without the N bit is not a graceful loss: nothing is retained
+			p3.Ops = append(p3.Ops, Op{Kind: "down", Actor: i, Arg: "notify"}, Op{Kind: "up", Actor: i, Delay: 1500})
+			p3.Ops = append(p3.Ops, eors(c, 300)...)
+		}
+	}
+	p3.Settle, p3.Check = 10, true
+	sc.Phases = append(sc.Phases, p3)
+	sc.Final = pick(g, []string{"stop", "stopbgp"})
+	return sc
 }
